@@ -8,6 +8,7 @@ import (
 	"io"
 	"net"
 	"strings"
+	"sync"
 	"time"
 
 	"github.com/gammazero/nexus/v3/stdlog"
@@ -34,6 +35,10 @@ type rawSocketPeer struct {
 	ctxSender    context.Context
 
 	writerDone chan struct{}
+
+	// Serializes the frames written by sendHandler with the PONG frames
+	// written by recvHandler.
+	writeLock sync.Mutex
 
 	log stdlog.StdLog
 }
@@ -233,13 +238,13 @@ sendLoop:
 			}
 			lenBytes := intToBytes(len(b))
 			header := []byte{0x0, lenBytes[0], lenBytes[1], lenBytes[2]}
-			if _, err = rs.conn.Write(header); err != nil {
-				if !wamp.IsGoodbyeAck(msg) {
-					rs.log.Println("Error writing header:", err)
-				}
-				continue sendLoop
+			rs.writeLock.Lock()
+			_, err = rs.conn.Write(header)
+			if err == nil {
+				_, err = rs.conn.Write(b)
 			}
-			if _, err = rs.conn.Write(b); err != nil {
+			rs.writeLock.Unlock()
+			if err != nil {
 				if !wamp.IsGoodbyeAck(msg) {
 					rs.log.Println("Error writing message:", msg, err)
 				}
@@ -303,13 +308,21 @@ MsgLoop:
 				continue MsgLoop
 			}
 		case 1: // PING
-			header[0] = 0x02
-			if _, err = rs.conn.Write(header[:]); err != nil {
-				rs.log.Println("Error writing header responding to PING:", err)
+			// Read the whole payload first, then write the PONG frame in one
+			// piece, so that it cannot end up inside a frame that sendHandler
+			// is writing at the same time.
+			pong := make([]byte, 4+length)
+			copy(pong, header[:])
+			pong[0] = 0x02
+			if _, err = io.ReadFull(rs.conn, pong[4:]); err != nil {
+				rs.log.Println("Error reading PING:", err)
 				_ = rs.conn.Close()
 				return
 			}
-			if _, err = io.CopyN(rs.conn, rs.conn, int64(length)); err != nil {
+			rs.writeLock.Lock()
+			_, err = rs.conn.Write(pong)
+			rs.writeLock.Unlock()
+			if err != nil {
 				rs.log.Println("Error responding to PING:", err)
 				_ = rs.conn.Close()
 				return
